@@ -80,15 +80,15 @@ type field struct {
 }
 
 type objType struct {
-	name     string
-	entity   bool
-	ifaces   []string
-	fields   []*field
-	skuSubs  []int // subgraphs that also declare @key(fields:"sku")
+	name    string
+	entity  bool
+	ifaces  []string
+	fields  []*field
+	skuSubs []int // subgraphs that also declare @key(fields:"sku")
 	// keyVariant[s]: how subgraph s declares the second key (0 first, 1 unresolvable, 2 both)
 	keyVariant map[int]int
 	// nested: a third key through a value object, '@key(fields: "info { kid }")'
-	nested *nestedKey
+	nested   *nestedKey
 	keyOnly  bool
 	fieldSet map[string]*field
 }
@@ -437,6 +437,15 @@ func Gen(t *rapid.T, o Options) *Layout {
 		m.ifaces["I1"] = append(m.ifaces["I1"], "ireq")
 		m.feat["requires-on-iface-field"] = true
 	}
+	ireqComputed := false
+	// the form of the federation documentation: one subgraph serves the interface field for
+	// every implementer and computes it for one of them, so the interface itself declares the
+	// field there and a selection on the interface has to be expanded per implementer
+	ireqSame := -1
+	if ifaceRequires && rapid.Bool().Draw(t, "ireqsame") {
+		ireqSame = owner("ireqsameown")
+		m.feat["iface-requires-same-subgraph"] = true
+	}
 	// @requires: a computed field owned by a subgraph that does not own the required scalar
 	for _, e := range m.objs {
 		if !e.entity {
@@ -444,10 +453,16 @@ func Gen(t *rapid.T, o Options) *Layout {
 		}
 		if ifaceRequires && hasS(i1Impl, e.name) {
 			f := &field{name: "ireq", typ: "String", named: "String", owners: []int{owner("ireqown")}, provides: map[int]string{}}
-			if rapid.Bool().Draw(t, "ireqcomputed") {
+			if ireqSame >= 0 {
+				f.owners[0] = ireqSame
+			}
+			// at most one implementer computes it (two of them, each needing the other's
+			// subgraph, are the cycle of finding C01-requires-cycle-between-subgraphs)
+			if !ireqComputed && rapid.Bool().Draw(t, "ireqcomputed") {
 				for _, g := range e.fields {
 					if g.args == "" && isScalarName(g.named) && len(g.owners) == 1 && g.owners[0] != f.owners[0] && !strings.HasPrefix(g.name, "err") && !strings.HasPrefix(g.name, "echo") && g.name != "ireq" {
 						f.requires = g.name
+						ireqComputed = true
 						break
 					}
 				}
@@ -490,7 +505,10 @@ func Gen(t *rapid.T, o Options) *Layout {
 			// fields of one subgraph into one fetch, the fetch dependencies become cyclic and
 			// post-processing overflows the stack (finding C01-requires-cycle-between-subgraphs)
 			edges := map[int][]int{}
-			for _, x := range extra {
+			for _, x := range append(append([]*field{}, extra...), e.fields...) {
+				if x.requires == "" || len(x.owners) == 0 {
+					continue
+				}
 				for _, rn := range strings.Fields(x.requires) {
 					for _, g := range e.fields {
 						if g.name == rn && len(g.owners) > 0 {
